@@ -36,6 +36,7 @@ MaxLenG == EnvInt("MAXLENG", 3)    \* bodies with one nested generator: length <
 MaxK    == EnvInt("MAXK", 2)       \* Values of the nested generator: 0..MaxK
 TakeMax == EnvInt("TAKEMAX", 6)    \* take_first(gen, n) for n in 0..TakeMax
 MaxCons == EnvInt("MAXCONS", 2)    \* consumer calls per history (take_first twice on one generator)
+DepthK  == EnvInt("DEPTHK", 2)     \* operations per history when the Values carry something else than distinct ints
 Extra   == EnvInt("EXTRA", 2)      \* histories that contain "start" go on for Extra more operations (what is delivered afterwards)
 
 FlatBodies == UNION {[1..n -> {"A", "V"}] : n \in 0..MaxLen}
@@ -52,8 +53,18 @@ Flat(b, k) == FlattenSeq([i \in 1..Len(b) |->
                  ELSE IF b[i] = "V" THEN <<El("V", i)>>
                  ELSE FlattenSeq([m \in 1..k |-> <<El("g", 0), El("V", 10 + m)>>])])
 
-VARIABLES body, k, pos, lastc, started, target, lastv, stopped, tail, ncons, delivered, hist
-vars == <<body, k, pos, lastc, started, target, lastv, stopped, tail, ncons, delivered, hist>>
+(* what Value(...) carries.  The property speaks of "the Values", not of what they are: the same results are prescribed
+   for every kind, identified by the object handed back (the replay compares by identity):
+     int     distinct plain ints                  none    None, every time
+     anyeq   objects whose __eq__ answers True to anything (like unittest.mock.ANY)
+     badeq   objects whose __eq__ raises, or returns something that has no truth value (array-like)
+     same    one and the same object, yielded every time
+     marker  other MarkerObjects that look like END_OF_GENERATOR
+   With none/same all payloads are one object, so the recorded results carry 0 for each of them. *)
+Kinds == {"int", "none", "anyeq", "badeq", "same", "marker"}
+
+VARIABLES kind, body, k, pos, lastc, started, target, lastv, stopped, tail, ncons, delivered, hist
+vars == <<kind, body, k, pos, lastc, started, target, lastv, stopped, tail, ncons, delivered, hist>>
 (* pos     = number of elements of F the body has passed (Len(F)+1: the body has returned)
    lastc   = the future last returned by next() is computed (TRUE when there is none)
    started = that future is not computed but has STARTED: a scheduler began to run it and it is suspended in the
@@ -65,7 +76,9 @@ vars == <<body, k, pos, lastc, started, target, lastv, stopped, tail, ncons, del
    delivered = payloads handed to the caller so far *)
 
 HasStart == \E i \in 1..Len(hist) : hist[i].op = "start"
-Bound == IF HasStart THEN Depth + Extra ELSE Depth
+DepthOf == IF kind = "int" THEN Depth ELSE DepthK
+Bound == IF HasStart THEN DepthOf + Extra ELSE DepthOf
+Pay(v) == IF kind \in {"none", "same"} THEN 0 ELSE v
 
 F == Flat(body, k)
 L == Len(F)
@@ -82,9 +95,10 @@ Cnt(p) == Cardinality({j \in 1..L : j <= p /\ F[j].e \in {"A", "V"}}) + (IF p = 
 R(kd, vs, p) == [k |-> kd, vs |-> vs, p |-> p]
 Tok(kd) == R(kd, <<>>, 0)
 NoFut == Tok("none")
-Rec(op, n, res) == [op |-> op, n |-> n, res |-> res]
+Rec(op, n, res) == [op |-> op, n |-> n, res |-> [res EXCEPT !.vs = [i \in 1..Len(res.vs) |-> Pay(res.vs[i])]]]
 
-Init == /\ \/ body \in FlatBodies /\ k = 0
+Init == /\ kind \in Kinds
+        /\ \/ body \in FlatBodies /\ k = 0
            \/ body \in NestedBodies /\ k \in 0..MaxK
         /\ pos = 0 /\ lastc = TRUE /\ started = FALSE /\ target = 0 /\ lastv = NoFut
         /\ stopped = FALSE /\ tail = FALSE /\ ncons = 0 /\ delivered = <<>> /\ hist = <<>>
@@ -93,7 +107,7 @@ Same(xs) == UNCHANGED xs
 
 OpNext ==
   /\ Len(hist) < Bound
-  /\ UNCHANGED <<body, k, ncons, started>>
+  /\ UNCHANGED <<kind, body, k, ncons, started>>
   /\ IF tail THEN
         /\ hist' = Append(hist, Rec("next", 0, Tok("tailnext")))
         /\ Same(<<pos, lastc, target, lastv, stopped, tail, delivered>>)
@@ -121,7 +135,7 @@ OpNext ==
 OpCompute ==      \* .value() of the future last returned by next()
   /\ Len(hist) < Bound
   /\ lastv # NoFut \/ tail
-  /\ UNCHANGED <<body, k, ncons>>
+  /\ UNCHANGED <<kind, body, k, ncons>>
   /\ started' = FALSE
   /\ IF tail THEN
         /\ hist' = Append(hist, Rec("compute", 0, Tok("tailend")))
@@ -140,7 +154,7 @@ Consume(op, n) ==
   /\ Len(hist) < Bound /\ ncons < MaxCons
   /\ ~started            \* while the future is suspended only siblings run: they call next(); compute lets it finish
   /\ ncons' = ncons + 1
-  /\ UNCHANGED <<body, k, target, lastv, lastc, started>>
+  /\ UNCHANGED <<kind, body, k, target, lastv, lastc, started>>
   /\ IF op = "take" /\ n = 0 THEN          \* nothing is needed: nothing advances, whatever the state
         /\ hist' = Append(hist, Rec(op, n, R("lst", <<>>, IF tail THEN Cnt(L + 1) ELSE Cnt(pos))))
         /\ Same(<<pos, stopped, tail, delivered>>)
@@ -165,11 +179,11 @@ Consume(op, n) ==
    changes; what matters is that next() issued by the sibling in this state is still "before the previously returned
    task is computed". *)
 OpStart ==
-  /\ Len(hist) < Depth
+  /\ Len(hist) < DepthOf /\ kind = "int"        \* what the Values carry plays no part in this
   /\ ~lastc /\ ~started /\ ~tail /\ F[pos].e = "A"
   /\ started' = TRUE
   /\ hist' = Append(hist, Rec("start", 0, Tok("ok")))
-  /\ UNCHANGED <<body, k, pos, lastc, target, lastv, stopped, tail, ncons, delivered>>
+  /\ UNCHANGED <<kind, body, k, pos, lastc, target, lastv, stopped, tail, ncons, delivered>>
 
 Next == OpNext \/ OpStart \/ OpCompute \/ Consume("list", 0) \/ \E n \in 0..TakeMax : Consume("take", n)
 Spec == Init /\ [][Next]_vars
@@ -178,7 +192,7 @@ Spec == Init /\ [][Next]_vars
 Stepped == hist' # hist
 InOrder == delivered = ValuesIn(1, pos)                         \* exactly the Values passed, in program order
 NothingLost == stopped => delivered = AllValues
-OnlyValues == \A i \in 1..Len(hist) : \A j \in 1..Len(hist[i].res.vs) : hist[i].res.vs[j] \in Range(AllValues)
+OnlyValues == \A i \in 1..Len(hist) : \A j \in 1..Len(hist[i].res.vs) : hist[i].res.vs[j] \in {Pay(x) : x \in Range(AllValues)}
 TakeNoMore ==      \* take_first(n) hands out at most n Values and leaves the body at the last one it handed out
   [][Stepped /\ Last(hist').op = "take" /\ Last(hist').res.k = "lst" =>
         /\ Len(delivered') - Len(delivered) <= Last(hist').n
@@ -191,5 +205,5 @@ EarlyAdvance ==    \* advancing before the previous future is computed raises Ru
   [][~lastc /\ Stepped /\ Last(hist').op \notin {"compute", "start"} /\ ~(Last(hist').op = "take" /\ Last(hist').n = 0) =>
         Last(hist').res.k = "runtime" /\ pos' = pos /\ delivered' = delivered]_vars
 
-Export == (Len(hist) = Bound) => PrintT(ToJson([body |-> body, k |-> k, h |-> hist]))
+Export == (Len(hist) = Bound) => PrintT(ToJson([kind |-> kind, body |-> body, k |-> k, h |-> hist]))
 =============================================================================
